@@ -137,7 +137,7 @@ def main():
     samples = []
     bounded_checks = []
     pending_hits = []
-    replay_dir = os.path.join(HERE, 'replays')
+    replay_dir = os.environ.get('VERIF_REPLAY_DIR', os.path.join(HERE, 'replays'))
     os.makedirs(replay_dir, exist_ok=True)
     n_search = {'quick': 150, 'thorough': 2000}[args.tier]
 
@@ -258,8 +258,9 @@ def main():
     ev = {'property_id': prop, 'tier': args.tier, 'seed': seed, 'level': level, 'coverage': coverage,
           'assumptions': sorted(set(a for f in funcs for a in (f.get('assumptions') or []))),
           'wall_s': round(wall, 2), 'violations': len(violations)}
-    os.makedirs(os.path.join(HERE, 'evidence'), exist_ok=True)
-    json.dump(ev, open(os.path.join(HERE, 'evidence', prop + '.json'), 'w'), indent=1)
+    evdir = os.environ.get('VERIF_EVIDENCE_DIR', os.path.join(HERE, 'evidence'))
+    os.makedirs(evdir, exist_ok=True)
+    json.dump(ev, open(os.path.join(evdir, prop + '.json'), 'w'), indent=1)
 
     print('%s: %d functions, %d/%d obligations discharged, %d degraded, %d undecided, %.1fs'
           % (prop, len(funcs), n_dis, n_obl, len(degraded), len(undecided), wall))
